@@ -13,7 +13,8 @@ REGISTRY = {
         "theorems": [(A + "AcceptThm", "Api.C01_accept"), (A + "AcceptThm", "Api.accepts_iff_conforms"), (A + "AcceptThm", "Api.compile_noFail"),
                      (A + "UnionSelThm", "Api.C01_accept_union"), (A + "AcceptUnionThm", "Api.C01_acceptU"), (A + "AcceptUnionThm", "Api.acceptsU"),
                      (A + "AcceptThm", "Api.compile_noFailU"), (A + "AcceptThm", "Api.acc_accU"), (A + "AcceptThm", "Api.isOk_finishObj"), (A + "AcceptThm", "Api.depMissing_isEmpty"), (A + "ImageThm", "Api.C01_image_partial"),
-                     (A + "FieldLoopSrcThm", "Api.fieldLoop_matches_source"), (A + "FieldLoopSrcThm", "Api.fieldLoop_covered")],
+                     (A + "FieldLoopSrcThm", "Api.fieldLoop_matches_source"), (A + "FieldLoopSrcThm", "Api.fieldLoop_covered"),
+                     (A + "ObjTailSrcThm", "Api.tail_matches_source"), (A + "ObjTailSrcThm", "Api.tail_covered"), (A + "ObjTailSrcThm", "Api.tail_pinned")],
         "partial": "C01_acceptU: acceptance <=> `conforms` on Ty.accU (unions of any shape at any depth, dependent_required included; sets, uniqueItems and field-level "
                    "fall_back_on_default outside) for data with distinct keys and no crash-prone leaf; C01_accept: the same on Ty.acc (a union is only Optional) "
                    "for every datum with distinct keys; C01_image_partial: typed image on the index-keyed fragment",
@@ -23,7 +24,8 @@ REGISTRY = {
         "engine": "engine_deser",
         "theorems": [(A + "ErrorsThm", "Api.C02_errors_eq_partial"), (A + "ErrorsThm", "Api.errors_eq_violations"),
                      (A + "ObjErrorsThm", "Api.C02_object_level"), (A + "TablesThm", "Api.Tables.C02_error_templates"),
-                     (A + "FieldLoopSrcThm", "Api.fieldLoop_matches_source"), (A + "FieldLoopSrcThm", "Api.fieldLoop_dep"), (A + "FieldLoopSrcThm", "Api.fieldLoop_covered")],
+                     (A + "FieldLoopSrcThm", "Api.fieldLoop_matches_source"), (A + "FieldLoopSrcThm", "Api.fieldLoop_dep"), (A + "FieldLoopSrcThm", "Api.fieldLoop_covered"),
+                     (A + "ObjTailSrcThm", "Api.tail_matches_source")],
         "partial": "list equation errors = violations on primitives / lists / tuples / NewTypes / annotations; per-object law (children = violating keys, including `missing property (required by [...])` of dependent_required, "
                    "both directions) for ObjectMethod; order of name-keyed children, mappings and Optional not yet proved",
         "assumptions": MODEL_ASSUMPTIONS,
@@ -42,7 +44,8 @@ REGISTRY = {
     "C08": {
         "engine": "engine_deser",
         "theorems": [(A + "NoCopyThm", "Api.C08_no_copy"), (A + "NoCopyThm", "Api.noCopy_independent"),
-                     (A + "TablesThm", "Api.Tables.C08_check_only_table"), (A + "TablesThm", "Api.Tables.C08_fast_path_conditions")],
+                     (A + "TablesThm", "Api.Tables.C08_check_only_table"), (A + "TablesThm", "Api.Tables.C08_fast_path_conditions"),
+                     (A + "FieldLoopSrcThm", "Api.fieldLoopSimple_matches_source"), (A + "FieldLoopSrcThm", "Api.fieldLoopSimple_covered")],
         "partial": "independence of no_copy proved on Ty.scope (TypedDict outside; any key type since the repair of row 30); constructor override, precomputed method, "
                    "check_type and pass-through are decided by the correspondence / relational checks on the real code",
         "assumptions": MODEL_ASSUMPTIONS,
